@@ -170,8 +170,7 @@ REWRITES = [
     R("c14-exit-in-helper", T, "invariant", "extract-helper", "xml: the exit sequence moves into a helper taking the writer and the lexer error", exit_in_helper, tests=["./xml/..."]),
     R("c14-suberr-wrapped", T, "invariant", "wrap-error-return", "svg: UpdateErrorPosition wrapped in a local helper", suberr_wrapped, tests=["./svg/..."]),
     R("c14-suberr-hoisted", T, "invariant", "equivalent-form", "svg: `err := sub(); if err != nil` instead of if-with-init", suberr_hoisted, tests=["./svg/..."]),
-    R("c14-js-parse-renamed", T, "invariant", "rename-local", "js Minify: ast, err -> tree, perr", js_parse_renamed, tests=["./js/..."],
-      known="ExitPaths is identical; C02's RenameSites (owned by the C02 builder) records the argument text `!ast.Scope.HasWith` of newRenamer"),
+    R("c14-js-parse-renamed", T, "invariant", "rename-local", "js Minify: ast, err -> tree, perr", js_parse_renamed, tests=["./js/..."]),
     R("c14-js-return-probe-err", T, "invariant", "equivalent-form", "js Minify: `_, err = w.Write(nil); return err`", js_return_probe_err, tests=["./js/..."]),
     R("c14-more-work", T, "invariant", "add-unrelated-stmt", "css Minify: unrelated statements before the loop", more_work),
     R("c14-more-dropped-writes", T, "invariant", "add-unrelated-stmt", "xml Minify: an extra (empty) body write", more_dropped_writes, tests=["./xml/..."]),
